@@ -173,6 +173,8 @@ type Result struct {
 	NontrivialRun uint64            `json:"nontrivial_runs"`
 	Sites         map[string]int    `json:"sites"`
 	Abandoned     int               `json:"abandoned"`
+	Stuck         int               `json:"stuck"`
+	StuckRuns     []string          `json:"stuck_runs,omitempty"`
 	Adopted       int               `json:"adopted"`
 	HarnessErrs   []string          `json:"harness_errors"`
 	Violations    []*FoundViolation `json:"violations"`
@@ -254,7 +256,8 @@ type merged struct {
 	simS                                              float64
 	faults, probes, sites                             map[string]int
 	runsByScen                                        map[string]uint64
-	abandoned, adopted                                int
+	abandoned, adopted, stuck                         int
+	stuckRuns                                         []string
 	harnessErrs                                       []string
 	samples                                           []map[string]any
 	viol                                              map[string][]*FoundViolation
@@ -276,6 +279,10 @@ func (m *merged) add(r *Result, hashFile string) {
 	m.nontrivial += r.NontrivialRun
 	m.simS += r.SimTimeS
 	m.abandoned += r.Abandoned
+	m.stuck += r.Stuck
+	if len(m.stuckRuns) < 8 {
+		m.stuckRuns = append(m.stuckRuns, r.StuckRuns...)
+	}
 	m.adopted += r.Adopted
 	for k, v := range r.Faults {
 		m.faults[k] += v
@@ -403,7 +410,9 @@ func check(prop, tier string) int {
 	for pi, ph := range phases {
 		t0 := time.Now()
 		ph.b = build(fmt.Sprintf("%s-%s-p%d", prop, tier, pi), ph.race)
-		defer os.RemoveAll(ph.b.dir)
+		if os.Getenv("VSIM_KEEP_BUILD") == "" { // (development aid: keep worker logs)
+			defer os.RemoveAll(ph.b.dir)
+		}
 		buildS += time.Since(t0).Seconds()
 		for _, sp := range ph.scen {
 			scenPhase[sp.Name] = ph
@@ -479,6 +488,9 @@ func check(prop, tier string) int {
 	}
 	if m.runs == 0 {
 		trouble("no runs executed")
+	}
+	if m.stuck > 0 {
+		fmt.Printf("NOTE %d run(s) were abandoned by the per-run watchdog and are not part of the result (simulator wedge, e.g. %v): a goroutine waiting on a standard-library mutex whose holder waits for the simulated network stops virtual time (DESIGN section 0)\n", m.stuck, m.stuckRuns)
 	}
 
 	// violations: one representative per fingerprint, replayed in a fresh process
@@ -647,6 +659,9 @@ func check(prop, tier string) int {
 		}
 	}
 
+	if exit == 0 && m.stuck > 10 && uint64(m.stuck)*100 > m.runs {
+		trouble("%d of %d runs wedged the simulator and were abandoned: too many for a clean verdict", m.stuck, m.runs+uint64(m.stuck))
+	}
 	wallS := time.Since(start).Seconds()
 	writeEvidence(prop, tier, seed, plan, m, b, wallS, buildS, nViol, knownHit)
 	fmt.Printf("check %s %s: runs=%d distinct=%d decisions=%d sim_time=%.0fs wall=%.1fs (build %.1fs) violations=%d known=%d\n",
@@ -713,6 +728,7 @@ func writeEvidence(prop, tier string, seed uint64, plan *Plan, m *merged, b *bui
 		"distinct_abstract_states":  len(m.distinctStates),
 		"sync_sites_reached":        sites,
 		"abandoned_goroutine_runs":  m.abandoned,
+		"stuck_runs_abandoned":      m.stuck,
 		"adopted_goroutines":        m.adopted,
 		"workers_hit_wall_budget":   m.incomplete,
 		"real_components":           plan.Real,
